@@ -274,8 +274,30 @@ def rule_S2(ctx):
     if not execs:
         raise AnalysisBroken("ex_command no longer calls ex_exec")
     is_bump = lambda e: e != ("exit",) and is_call(ec.nodes.get(e), "lbuf_modified")
+    # the bump may be skipped only while a global command is running (its depth counter is
+    # non-zero): the global's own top-level command bumps when it is done
+    depvar = None
+    if prog.has_func("ec_glob"):
+        for n_, lv_, op_, rhs_ in stores(prog.func("ec_glob").body):
+            if lv_["k"] == "ref" and lv_.get("cat") in ("global", "sglobal", "static") and op_ in ("post++", "pre++"):
+                depvar = lv_["name"]
+    skip_edges = set()
+    if depvar:
+        from ..util import nullness
+        for b_ in ec.cfg.blocks.values():
+            br = ec.cfg.branch(b_.id)
+            if not br:
+                continue
+            c_ = ec.nodes.get(br[0])
+            if c_ is None:
+                continue
+            for truth, k_ in ((True, 0), (False, 1)):
+                nn = nullness(c_, truth)
+                if nn is not None and key(nn[0]) == depvar and not nn[1]:
+                    skip_edges.add((b_.id, k_))          # edge on which the depth is non-zero
     for x in execs:
-        after = ec.cfg.search(ec.cfg.pos(x), lambda e: e == ("exit",), avoid=is_bump)
+        after = ec.cfg.search(ec.cfg.pos(x), lambda e: e == ("exit",), avoid=is_bump,
+                              edge_ok=lambda b, k, s_: (b, k) not in skip_edges)
         before_ok = any(ec.cfg.dominates(b, x) for b in ec.calls("lbuf_modified"))
         if after and not before_ok:
             ctx.violation("ex_command", "bump per top-level command",
@@ -380,6 +402,41 @@ def rule_S4(ctx):
                       "ec_glob reaches ex_command via %s" % "->".join(r[1]))
     else:
         ctx.ok("ec_glob", "nested execution uses ex_exec")
+    # handlers that run stored text (registers, scripts) come back through ex_command: its bump
+    # must not happen while a global is running (the depth counter ec_glob raises is non-zero)
+    depvar = None
+    for n, lv, op, rhs in stores(g.body):
+        if lv["k"] == "ref" and lv.get("cat") in ("global", "sglobal", "static") and op in ("post++", "pre++"):
+            depvar = lv["name"]
+    exc = prog.func("ex_command")
+    reenter = [h for h in sorted({fn for abbr, name, fn in rows})
+               if prog.has_func(h) and any(True for _ in prog.func(h).calls("ex_command"))]
+    if reenter:
+        okb = True
+        for c in exc.calls("lbuf_modified"):
+            guarded = False
+            for cc, tt in _su_facts(exc, c):
+                from ..util import nullness
+                nn = nullness(cc, tt)
+                if nn is not None and depvar and key(nn[0]) == depvar and nn[1]:
+                    guarded = True
+            if not guarded:
+                okb = False
+                ctx.violation("ex_command", "no sequence bump while a global runs",
+                              "%s run stored text through ex_command(), whose lbuf_modified() is not under "
+                              "`%s == 0`: inside :g every executed line closes the undo group, so the global "
+                              "is undone piecewise" % (", ".join(reenter), depvar or "global depth"), exc.loc(c))
+        if okb:
+            ctx.ok("ex_command", "the bump is skipped while a global runs (%s re-enter through it)" % ", ".join(reenter))
+
+
+def _su_facts(f, n):
+    out = []
+    for cid, truth in f.cfg.facts_at(n["id"]):
+        c = f.nodes.get(cid)
+        if c is not None:
+            out.append(negate_truth(c, truth))
+    return out
 
 
 # ---------------------------------------------------------------------------------------
